@@ -36,6 +36,8 @@ class UnitResult:
         self.bounded = []       # strings describing bounded stand-ins
         self.wall = 0.0
         self.cex = {}           # obligation -> counterexample text
+        self.thorough_incomplete = []
+        self.stability = []
 
 
 # ------------------------------------------------------------------------------------------------
@@ -62,6 +64,12 @@ def _verus_unit(unit, tier, seed):
                 o.status = "undecided"
                 o.detail = "unstable verdict (failed at default rlimit, verified at doubled rlimit/other seed)\n" + o.detail
     res.obls = obls
+    if tier == "thorough" and not failing:
+        # proof-stability report: two more solver seeds at half the resource limit; differences are reported, not alarms
+        for k in (1, 2):
+            o3, _ = R.run_verus(unit["name"] + "_seed%d" % k, text, rlimit=5, seed=seed + 101 * k)
+            bad = [o.name for o in o3 if o.status != "ok"]
+            res.stability.append({"seed": seed + 101 * k, "rlimit": 5, "not_verified": bad})
     for o in obls:
         if o.status == "undecided":
             res.undecided.append("%s: %s" % (o.name, o.detail[:1500]))
@@ -196,6 +204,10 @@ def _kani_unit(unit, tier, seed, pid=None):
                 if st == "fail" and r["unwind_fail"] and all("unwinding assertion" in f[0] for f in r["failed"]):
                     st = "undecided"
                     failed_txt = "unwinding bound too small for the current code:\n" + failed_txt
+                if st == "undecided" and h.get("tier") == "thorough" and r.get("timed_out"):
+                    # a thorough-only harness that does not finish within its budget is reported, not counted, and never an alarm
+                    res.thorough_incomplete.append("%s: %s (no verdict within %ds)" % (oname, h["name"], unit.get("harness_timeout", 400)))
+                    continue
                 if st == "undecided":
                     res.undecided.append("%s: harness %s: %s" % (unit["name"], h["name"], (failed_txt or r["raw"][-1500:])))
                 o = R.Obl(oname, "kani/cbmc", st, r["time"], failed_txt if st != "ok" else "", max(1, r["checks"]))
@@ -470,6 +482,8 @@ def _write_evidence(pid, tier, seed, units, results, obl_all, discharged, violat
         "bounded_stand_ins": bounded,
         "known_findings_reported": known_lines,
         "undecided": [u[:300] for u in undecided],
+        "thorough_incomplete": sum([r.thorough_incomplete for r in results], []),
+        "verus_stability_runs": sum([r.stability for r in results], []),
         "assumption_scan": scan,
         "samples": samples,
         "evaluations": len(obl_all),
